@@ -1195,12 +1195,10 @@ func cloneRegexp(re *syntax.Regexp) *syntax.Regexp {
 		}
 	}
 
-	// Clone Sub0 (inline storage)
-	for i := range re.Sub0 {
-		if re.Sub0[i] != nil {
-			clone.Sub0[i] = cloneRegexp(re.Sub0[i])
-		}
-	}
+	// Sub0 is the parser's inline backing store for Sub (and doubles as its
+	// free-list link, which can point back into the tree); the children were
+	// already cloned through Sub, so following Sub0 as well is redundant and
+	// recursed without bound on recycled nodes.
 
 	return clone
 }
